@@ -21,6 +21,7 @@ func runC04(r *harness.Run) {
 		"__index/__newindex as function and as table chains of depth 1-3 and 99/100/101 with key present/absent/stored-false; the complete product of 1-2 (thorough: 3) linked tables x per level key absent/present/false x __index link none/table/function x __newindex link none/table/logging function/rawsetting function x key form, driven by a fixed read/write/erase sequence with raw dumps (F-chain); __call as statement, argument, tail call, iterator; __tostring, __metatable, rawget/rawset/rawequal. Every handler logs event, argument identities and order through emit and returns two values. Each program runs on gopher-lua and the reference interpreter"
 	r.Assumptions = []string{"luaref implements the manual's §2.8 pseudo-code", "not judged: __len on tables, the second argument of __unm, __gc/__mode, callable tables as handlers, arithmetic on the string metatable"}
 	pr.runGens(gens, []string{"F-misc", "F-callmeta", "F-index", "F-chain", "F-cmp", "F-arith"})
+	runPinned(r, "C04")
 	// handlers are entered through frames that the interpreter builds on the value stack: the same
 	// selection rules under a registry that reallocates on every growth step (one slot at a time,
 	// and in steps of 3 from 16), so that a handler call falls on a reallocation at every alignment
